@@ -238,6 +238,18 @@ _REANCHOR.update({
     "t ignores the verdict": (
         "                if a.test() is not False and a.testzip() is None:\n", "                a.testzip()\n                if a.test() is not False:\n"),
 })
+_REANCHOR.update({
+    # the witness now removes the (only, link-resolving) guard: the old text removed the textual one of two
+    "symlink created without is_path_valid": (
+        "                            if is_path_contained(fileish.parent.joinpath(dst), path):\n                                # fileish.unlink(missing_ok=True) > py3.7\n                                if fileish.exists():\n                                    fileish.unlink()\n                                fileish.symlink_to(dst)",
+        "                            if True:\n                                # fileish.unlink(missing_ok=True) > py3.7\n                                if fileish.exists():\n                                    fileish.unlink()\n                                fileish.symlink_to(dst)"),
+    "regular file: CRC compare only when callback queue given": (
+        "                            if f.crc32 is not None and crc32 != f.crc32:\n                                raise CrcError(crc32, f.crc32, f.filename)\n                        except CrcError:",
+        "                            if q is not None and f.crc32 is not None and crc32 != f.crc32:\n                                raise CrcError(crc32, f.crc32, f.filename)\n                        except CrcError:"),
+    "continue before registering None": (
+        "                if member_name not in targets:\n                    unwanted.add(f.id)\n                    continue\n",
+        "                if member_name not in targets:\n                    continue\n"),
+})
 for _w in WITNESSES:
     if _w["name"] in _REANCHOR:
         _w["old"], _w["new"] = _REANCHOR[_w["name"]]
